@@ -20,7 +20,8 @@ RULE = ('full product of model family/options x weight tying x saliency x eps x 
         'compared along every EM edge and every jump edge')
 ASSUMPTIONS = ['independent log-likelihood uses the reference densities (mpmath) and the stored weights',
                'edges with an active numerical guard (cACG eigenvalue < 1e4*floor, Watson concentration at a '
-               'bound, affiliation at the clip) are counted but not judged']
+               'bound, affiliation at the clip, a Gaussian class collapsed onto one point so that its variance '
+               'is below 1e-20 of the data variance) are counted but not judged']
 
 FAMILIES = (
     [('cacgmm', dict(covariance_norm=n, hermitize=h)) for n in ('eigenvalue', 'trace', False) for h in (True, False)]
@@ -49,8 +50,28 @@ def make_data(seed, model, lead, K, D, ds):
     return y, N
 
 
-def guards(model, m, floor=1e-10, kmax=500.0):
+def gaussian_collapsed(m, scale2):
+    """a Gaussian class whose (co)variance is at the rounding level of the data (the class sits on a single
+    point; its exact ML variance is zero and the likelihood unbounded): degenerate state, every value of the
+    stored variance is rounding noise."""
+    g = getattr(m, 'gaussian', None)
+    if g is None:
+        return False
+    if hasattr(g, 'covariance'):
+        c = np.asarray(g.covariance)
+        if c.ndim >= 2 and c.shape[-1] == c.shape[-2] and type(g).__name__ == 'Gaussian':
+            v = np.linalg.eigvalsh((c + np.swapaxes(c, -1, -2)) / 2).min()
+        else:
+            v = c.min()
+    else:
+        v = 1.0 / np.asarray(g.precision).max()
+    return bool(v < 1e-20 * scale2)
+
+
+def guards(model, m, floor=1e-10, kmax=500.0, scale2=None):
     """True if a numerical guard is active in this state."""
+    if scale2 is not None and model in ('gmm', 'gcacgmm') and gaussian_collapsed(m, scale2):
+        return 'gaussian variance at rounding level (class on a single point)'
     if model in ('cacgmm', 'gcacgmm'):
         lam = np.asarray(m.cacg.covariance_eigenvalues)
         if (lam / lam.max(-1, keepdims=True)).min() < 1e4 * floor:
@@ -105,6 +126,9 @@ def run_traj(key):
         return viol(f'hook saw {len(trace)} of {n} iterations')
     shape = lead + (K, N)
     Ls, guarded = [], []
+    yv = data[1] if integ and model == 'gcacgmm' else data
+    yv = yv[0] if isinstance(yv, tuple) else yv
+    scale2 = float(np.var(np.asarray(yv).real)) if not np.iscomplexobj(yv) else None
     for i, (m_i, g_i) in enumerate(trace):
         try:
             ref = EM.from_impl(model, m_i, shape)
@@ -122,7 +146,7 @@ def run_traj(key):
         if not np.isfinite(L):
             return viol(f'{model}: log-likelihood of state {i} is {L!r}')
         Ls.append(L)
-        g = guards(model, m_i)
+        g = guards(model, m_i, scale2=scale2)
         if g is None and eps_used and i + 1 < n:
             nxt = trace[i + 1][1]
             if (nxt <= eps_used * (1 + 1e-9)).any() or (nxt >= 1 - eps_used * (1 + 1e-9)).any():
